@@ -1,5 +1,6 @@
 import PdtVerif.Lemmas.Estimators
 import PdtVerif.Lemmas.EstimatorsCount
+import PdtVerif.Lemmas.EstimatorsParams
 /-!
 # C19 — estimators are unbiased where promised; relaxed distributions are consistent
 
@@ -749,6 +750,19 @@ theorem C19_enum_card_rows (n k : Nat) :
     have hd2 : ∀ d ∈ row, d < 2 := fun d hd' => by rcases hd d hd' with h | h <;> omega
     exact ⟨⟨hl, hd2⟩, by rw [← count_one_eq_sum row hd2, hc]⟩
 
+/-- **C19_enum_card_tensor**: the tensor variant of the cardinality filter
+(`_enumerate_binary_sequences_with_cardinality_tensor`, one batch element of length `n ≤ lmax`):
+its valid rows are the rows of the `int` variant for `(n, k)`, in the same order, padded with
+zeros up to `lmax` — hence `C(n, k)` of them, exactly the binary vectors with `k` ones inside the
+first `n` positions and zeros beyond (`C19_enum_card_rows`). -/
+theorem C19_enum_card_tensor (lmax n k : Nat) (h : n ≤ lmax) :
+    enumCardTensor lmax n k = (enumCard n k).map (· ++ List.replicate (lmax - n) 0)
+    ∧ (enumCardTensor lmax n k).length = Nat.choose n k := by
+  obtain ⟨d, rfl⟩ := Nat.exists_eq_add_of_le h
+  have e : n + d - n = d := by omega
+  rw [enumCardTensor_eq, e]
+  exact ⟨rfl, by rw [List.length_map, C19_enum_card_length]⟩
+
 /-- **C19_srswor_support_prob**: `|support| · P = 1` for the SRSWOR distribution — the number of
 rows of `enumerate_support` (the cardinality filter) times `exp(log_prob)` (from the log-factorial
 table, with its clamped indices) is exactly one, for all `given ≤ total ≤ out_size`, `out_size ≥ 1`;
@@ -767,6 +781,242 @@ theorem C19_srswor_support_prob (outSize total given : Nat) (hg : given ≤ tota
   field_simp
   linarith [hq]
 
+
+/-! ## The two constructions (`probs=` / `logits=`), batch and event shape -/
+section Params
+
+/-- **LogisticBernoulli, either construction: `probs = sigmoid(logits)` entry by entry** (for the
+`probs=` construction up to the documented `clamp_probs`); every entry of the parameter tensor is
+one variable (`batch_shape = shape`, `event_shape = ()`). -/
+theorem C19_params_lb_sigmoid (eps : ℝ) (h0 : 0 < eps) (h1 : eps < 1 / 2) (shape : List Nat)
+    (data : List ℝ) :
+    (lbParams TR eps .logits shape data).probs
+        = (lbParams TR eps .logits shape data).logits.map TR.sigmoid
+    ∧ (lbParams TR eps .probs shape data).logits.map TR.sigmoid
+        = (lbParams TR eps .probs shape data).probs.map (clampProbs eps)
+    ∧ ∀ c, (lbParams TR eps c shape data).batchShape = shape
+        ∧ (lbParams TR eps c shape data).eventShape = [] := by
+  refine ⟨rfl, ?_, ?_⟩
+  · simp only [lbParams, List.map_map]
+    apply List.map_congr_left
+    intro p _
+    exact sigmoid_probsToLogitsBin eps p h0 h1
+  · intro c; cases c <;> exact ⟨rfl, rfl⟩
+
+/-- **Both constructions of LogisticBernoulli denote the same distribution**: the object built
+from `probs` and the object built from ITS `logits` hold the same `probs`, `logits` and shapes
+(probabilities inside `[eps, 1 - eps]`, where `clamp_probs` is inactive). -/
+theorem C19_params_lb (eps : ℝ) (h0 : 0 < eps) (shape : List Nat) (ps : List ℝ)
+    (hp : ∀ p ∈ ps, eps ≤ p ∧ p ≤ 1 - eps) :
+    lbParams TR eps .logits shape (lbParams TR eps .probs shape ps).logits
+      = lbParams TR eps .probs shape ps := by
+  simp only [lbParams, RelaxedParams.mk.injEq, List.map_map, true_and, and_true]
+  conv_rhs => rw [← List.map_id ps]
+  apply List.map_congr_left
+  intro p hp'
+  have h1 : (0 : ℝ) < p := lt_of_lt_of_le h0 (hp p hp').1
+  have h2 : p < 1 := by have := (hp p hp').2; linarith
+  simp only [Function.comp, probsToLogitsBin_eq eps p (hp p hp').1 (hp p hp').2 h0,
+    sigmoid_logit p h1 h2, id]
+
+/-- ... and the other way round: built from `logits`, then from ITS `probs`. -/
+theorem C19_params_lb_conv (eps : ℝ) (h0 : 0 < eps) (shape : List Nat) (ls : List ℝ)
+    (hl : ∀ l ∈ ls, eps ≤ TR.sigmoid l ∧ TR.sigmoid l ≤ 1 - eps) :
+    lbParams TR eps .probs shape (lbParams TR eps .logits shape ls).probs
+      = lbParams TR eps .logits shape ls := by
+  simp only [lbParams, RelaxedParams.mk.injEq, List.map_map, true_and]
+  conv_rhs => rw [← List.map_id ls]
+  apply List.map_congr_left
+  intro l hl'
+  simp only [Function.comp, probsToLogitsBin_sigmoid eps l h0 (hl l hl').1 (hl l hl').2, id]
+
+/-- `dist.expand(pre ++ batch_shape)` is the distribution of the expanded parameter. -/
+theorem C19_params_lb_expand (eps : ℝ) (c : Ctor) (shape pre : List Nat) (data : List ℝ) :
+    (lbParams TR eps c shape data).expand pre
+      = lbParams TR eps c (pre ++ shape) (List.replicate (prodL pre) data).flatten := by
+  cases c <;> simp only [lbParams, RelaxedParams.expand, List.map_flatten, List.map_replicate]
+
+variable (eps : ℝ) (shape : List Nat)
+
+/-- **GumbelOneHotCategorical(logits=..)**: the LAST axis is the class axis; along it the stored
+`logits` are normalised (`Σ exp = 1` in every row), `probs = exp(logits)`, and `probs` is the
+softmax of the tensor that was handed over, row by row. -/
+theorem C19_params_cat_logits (data : List ℝ) (hV : 0 < shape.getLastD 1)
+    (hlen : data.length = prodL shape.dropLast * shape.getLastD 1) :
+    (gParams TR eps .logits shape data).batchShape = shape.dropLast
+    ∧ (gParams TR eps .logits shape data).eventShape = [shape.getLastD 1]
+    ∧ (gParams TR eps .logits shape data).probs = (gParams TR eps .logits shape data).logits.map Real.exp
+    ∧ (gParams TR eps .logits shape data).probs
+        = ((rowsOf (shape.getLastD 1) (prodL shape.dropLast) data).map (softmaxRow TR)).flatten
+    ∧ ∀ r ∈ rowsOf (shape.getLastD 1) (prodL shape.dropLast) (gParams TR eps .logits shape data).logits,
+        sumL (r.map Real.exp) = 1 := by
+  have hrow := rowsOf_row_length (shape.getLastD 1) (prodL shape.dropLast) data hlen
+  have hne : ∀ r ∈ rowsOf (shape.getLastD 1) (prodL shape.dropLast) data, r ≠ [] := by
+    intro r hr h
+    have := hrow r hr
+    rw [h, List.length_nil] at this
+    omega
+  refine ⟨rfl, rfl, ?_, ?_, ?_⟩
+  · simp only [gParams, List.map_flatten, List.map_map]
+    congr 1
+    apply List.map_congr_left
+    intro r hr
+    exact softmaxRow_logSoftmaxRow r (hne r hr)
+  · simp only [gParams, List.map_map]
+    congr 1
+    apply List.map_congr_left
+    intro r hr
+    exact softmaxRow_shift r (hne r hr)
+  · intro r hr
+    simp only [gParams] at hr
+    rw [rowsOf_flatten_map _ _ _ hlen (logSoftmaxRow TR)
+      (fun r h => by rw [logSoftmaxRow_length, h])] at hr
+    obtain ⟨r0, hr0, rfl⟩ := List.mem_map.1 hr
+    exact sum_exp_logSoftmaxRow r0 (hne r0 hr0)
+
+/-- **GumbelOneHotCategorical(probs=..)**: `probs` is the handed-over tensor divided by its sum
+along the last axis (every row sums to one), `logits = log(clamp_probs(probs))`. -/
+theorem C19_params_cat_probs (data : List ℝ)
+    (hlen : data.length = prodL shape.dropLast * shape.getLastD 1)
+    (hs : ∀ r ∈ rowsOf (shape.getLastD 1) (prodL shape.dropLast) data, sumL r ≠ 0) :
+    (gParams TR eps .probs shape data).batchShape = shape.dropLast
+    ∧ (gParams TR eps .probs shape data).eventShape = [shape.getLastD 1]
+    ∧ (gParams TR eps .probs shape data).logits
+        = (gParams TR eps .probs shape data).probs.map (probsToLogits TR eps)
+    ∧ (gParams TR eps .probs shape data).probs
+        = ((rowsOf (shape.getLastD 1) (prodL shape.dropLast) data).map normRow).flatten
+    ∧ ∀ r ∈ rowsOf (shape.getLastD 1) (prodL shape.dropLast) (gParams TR eps .probs shape data).probs,
+        sumL r = 1 := by
+  refine ⟨rfl, rfl, ?_, rfl, ?_⟩
+  · simp only [gParams, List.map_flatten, List.map_map]
+  · intro r hr
+    simp only [gParams] at hr
+    rw [rowsOf_flatten_map _ _ _ hlen normRow (fun r h => by rw [normRow_length, h])] at hr
+    obtain ⟨r0, hr0, rfl⟩ := List.mem_map.1 hr
+    exact sumL_normRow r0 (hs r0 hr0)
+
+/-- **Both constructions of GumbelOneHotCategorical denote the same distribution**
+(`softmax(logits) = probs / Σ probs` along the last axis): the object built from `probs = θ` and
+the object built from ITS `logits` hold the same tensors and shapes (normalised probabilities
+inside `[eps, 1 - eps]`). -/
+theorem C19_params_cat (h0 : 0 < eps) (θ : List ℝ)
+    (hlen : θ.length = prodL shape.dropLast * shape.getLastD 1)
+    (hs : ∀ r ∈ rowsOf (shape.getLastD 1) (prodL shape.dropLast) θ, sumL r ≠ 0)
+    (hc : ∀ r ∈ rowsOf (shape.getLastD 1) (prodL shape.dropLast) θ,
+      ∀ x ∈ normRow r, eps ≤ x ∧ x ≤ 1 - eps) :
+    gParams TR eps .logits shape (gParams TR eps .probs shape θ).logits
+      = gParams TR eps .probs shape θ := by
+  have key := rowsOf_flatten_map (shape.getLastD 1) (prodL shape.dropLast) θ hlen
+    (fun r => (normRow r).map (probsToLogits TR eps))
+    (fun r h => by rw [List.length_map, normRow_length, h])
+  simp only [gParams, RelaxedParams.mk.injEq, List.map_map, true_and]
+  have e : (fun r => List.map (probsToLogits TR eps) r) ∘ normRow
+      = fun r => (normRow r).map (probsToLogits TR eps) := rfl
+  rw [e, key, List.map_map, List.map_map]
+  constructor
+  · congr 1
+    apply List.map_congr_left
+    intro r hr
+    have h := row_probs_then_logits eps h0 r (hs r hr) (hc r hr)
+    simp only [Function.comp, h.1, h.2]
+  · congr 1
+    apply List.map_congr_left
+    intro r hr
+    have h := row_probs_then_logits eps h0 r (hs r hr) (hc r hr)
+    simp only [Function.comp, h.1]
+
+/-- ... and the other way round: built from `logits = l`, then from ITS `probs`. -/
+theorem C19_params_cat_conv (l : List ℝ) (hV : 0 < shape.getLastD 1)
+    (hlen : l.length = prodL shape.dropLast * shape.getLastD 1)
+    (hc : ∀ r ∈ rowsOf (shape.getLastD 1) (prodL shape.dropLast) l,
+      ∀ x ∈ softmaxRow TR (logSoftmaxRow TR r), eps ≤ x ∧ x ≤ 1 - eps) :
+    gParams TR eps .probs shape (gParams TR eps .logits shape l).probs
+      = gParams TR eps .logits shape l := by
+  have hrow := rowsOf_row_length (shape.getLastD 1) (prodL shape.dropLast) l hlen
+  have hne : ∀ r ∈ rowsOf (shape.getLastD 1) (prodL shape.dropLast) l, r ≠ [] := by
+    intro r hr h
+    have := hrow r hr
+    rw [h, List.length_nil] at this
+    omega
+  have key := rowsOf_flatten_map (shape.getLastD 1) (prodL shape.dropLast) l hlen
+    (fun r => softmaxRow TR (logSoftmaxRow TR r))
+    (fun r h => by rw [softmaxRow_length, logSoftmaxRow_length, h])
+  simp only [gParams, RelaxedParams.mk.injEq, List.map_map, true_and]
+  have e : softmaxRow TR ∘ logSoftmaxRow TR = fun r => softmaxRow TR (logSoftmaxRow TR r) := rfl
+  rw [e, key, List.map_map, List.map_map]
+  constructor
+  · congr 1
+    apply List.map_congr_left
+    intro r hr
+    have h := row_logits_then_probs eps r (hne r hr) (hc r hr)
+    simp only [Function.comp, h.1]
+  · congr 1
+    apply List.map_congr_left
+    intro r hr
+    have h := row_logits_then_probs eps r (hne r hr) (hc r hr)
+    simp only [Function.comp, h.1, h.2]
+
+
+/-- `dist.expand(pre ++ batch_shape)` of the categorical relaxation is the distribution of the
+expanded parameter (new LEADING axes; the class axis stays last). -/
+theorem C19_params_cat_expand (eps : ℝ) (c : Ctor) (shape pre : List Nat) (data : List ℝ)
+    (hs : shape ≠ []) (hlen : data.length = prodL shape.dropLast * shape.getLastD 1) :
+    (gParams TR eps c shape data).expand pre
+      = gParams TR eps c (pre ++ shape) (List.replicate (prodL pre) data).flatten := by
+  have e1 : (pre ++ shape).getLastD 1 = shape.getLastD 1 := by
+    simp only [List.getLastD_eq_getLast?, List.getLast?_append, List.getLast?_eq_some_getLast hs,
+      Option.getD_some, Option.some_or]
+  have e2 : (pre ++ shape).dropLast = pre ++ shape.dropLast := List.dropLast_append_of_ne_nil hs
+  have e3 := rowsOf_replicate (shape.getLastD 1) (prodL shape.dropLast) data hlen (prodL pre)
+  cases c <;>
+  · simp only [gParams, RelaxedParams.expand, e1, e2, prodL_append, e3,
+      List.map_flatten, List.map_replicate, flatten_replicate_flatten]
+
+/-- **thresholding a conditional relaxed sample returns the conditioning value, at tensor level**:
+for a LogisticBernoulli of ANY construction, batch shape and `expand` (any `RelaxedParams`), any
+sample shape, all draws and every binary `b` of the shape of the draws — the parameter each entry
+meets is picked by the broadcasting rule `paramAt`. -/
+theorem C19_threshold_tensor (eps : ℝ) (h0 : 0 < eps) (h1 : eps < 1 / 2) (P : RelaxedParams ℝ)
+    (vs bs : List ℝ) (hb : ∀ b ∈ bs, b = 0 ∨ b = 1) (hlen : bs.length ≤ vs.length) :
+    (lbCsampleT TR eps P vs bs).map lbThreshold = bs := by
+  simp only [lbCsampleT, List.map_map]
+  calc ((vs.zip bs).zipIdx).map _
+      = ((vs.zip bs).zipIdx).map (fun x => x.1.2) := by
+        apply List.map_congr_left
+        intro x hx
+        have hm := List.fst_mem_of_mem_zipIdx hx
+        have hb' : x.1.2 ∈ bs := (List.of_mem_zip (a := x.1.1) (b := x.1.2) hm).2
+        exact C19_threshold_clamped eps _ _ _ (hb _ hb') h0 h1
+    _ = (((vs.zip bs).zipIdx).map Prod.fst).map Prod.snd := by rw [List.map_map]; rfl
+    _ = bs := by rw [List.zipIdx_map_fst, List.map_snd_zip hlen]
+
+/-- **thresholding a conditional relaxed sample returns the conditioning value, at tensor level**
+(categorical relaxation): any construction / batch shape / `expand` (any `RelaxedParams` whose
+`probs` has `B · V` entries), any sample shape, all draws, every tensor `bs` of one-hot rows. -/
+theorem C19_threshold_cat_tensor (eps : ℝ) (h0 : 0 < eps) (P : RelaxedParams ℝ) (V : Nat)
+    (hV : P.eventShape = [V]) (hB : 0 < prodL P.batchShape)
+    (hP : P.probs.length = prodL P.batchShape * V) (vs bs : List (List ℝ))
+    (hv : ∀ v ∈ vs, v.length = V) (hb : ∀ b ∈ bs, ∃ k, k < V ∧ b = oneHot k V)
+    (hlen : bs.length ≤ vs.length) :
+    (gCsampleT TR eps P vs bs).map gThreshold = bs := by
+  simp only [gCsampleT, List.map_map, hV, List.headD_cons]
+  calc ((vs.zip bs).zipIdx).map _
+      = ((vs.zip bs).zipIdx).map (fun x => x.1.2) := by
+        apply List.map_congr_left
+        intro x hx
+        have hm := List.fst_mem_of_mem_zipIdx hx
+        obtain ⟨hv', hb'⟩ := List.of_mem_zip (a := x.1.1) (b := x.1.2) hm
+        obtain ⟨k, hk, hbk⟩ := hb _ hb'
+        simp only [Function.comp]
+        rw [hbk]
+        refine C19_threshold_cat_clamped TR eps h0 _ _ _ k V (by simp [oneHot])
+          (paramRowAt_length _ _ _ _ hB hP) (hv _ hv') hk (by simp [oneHot]) ?_
+        intro j hj hjk
+        simp [oneHot, hjk]
+    _ = (((vs.zip bs).zipIdx).map Prod.fst).map Prod.snd := by rw [List.map_map]; rfl
+    _ = bs := by rw [List.zipIdx_map_fst, List.map_snd_zip hlen]
+
+end Params
 
 /-! ## non-vacuity: every theorem above has its hypotheses instantiated on a concrete input -/
 def exΩ : List (Pt Rat) :=
@@ -866,5 +1116,61 @@ example : meanOver (fun _ => (1 / 2 : Rat)) 2 exRelax relaxEstimate = ⟨4, 2⟩
 
 example : lbThreshold (lbCsample TR (1/100) (1/4) (1/2) 0) = 0 :=
   C19_threshold _ _ _ _ (Or.inl rfl) (by norm_num) (by norm_num) (by norm_num) (by norm_num) (by norm_num)
+
+/-! the two constructions: hypotheses are satisfiable on tensors with more than one entry / row -/
+example : lbParams TR (1/100) .logits [2] (lbParams TR (1/100) .probs [2] [1/4, 3/4]).logits
+    = lbParams TR (1/100) .probs [2] [1/4, 3/4] :=
+  C19_params_lb (1/100) (by norm_num) [2] [1/4, 3/4] (by
+    intro p hp
+    simp only [List.mem_cons, List.not_mem_nil, or_false] at hp
+    rcases hp with rfl | rfl <;> constructor <;> norm_num)
+
+example : (lbParams TR (1/100) .probs [2] [0, 1]).logits.map TR.sigmoid = [1/100, 99/100] := by
+  rw [(C19_params_lb_sigmoid (1/100) (by norm_num) (by norm_num) [2] [0, 1]).2.1]
+  simp only [lbParams, List.map_cons, List.map_nil, clampProbs]
+  norm_num
+
+theorem exRows : rowsOf ([2, 2].getLastD 1) (prodL [2, 2].dropLast) [(1 : ℝ), 3, 2, 2]
+    = [[1, 3], [2, 2]] := rfl
+
+example : gParams TR (1/100) .logits [2, 2] (gParams TR (1/100) .probs [2, 2] [1, 3, 2, 2]).logits
+    = gParams TR (1/100) .probs [2, 2] [1, 3, 2, 2] :=
+  C19_params_cat (1/100) [2, 2] (by norm_num) [1, 3, 2, 2] (by simp [prodL])
+    (by
+      intro r hr
+      rw [exRows] at hr
+      simp only [List.mem_cons, List.not_mem_nil, or_false] at hr
+      rcases hr with rfl | rfl <;> norm_num [sumL])
+    (by
+      intro r hr x hx
+      rw [exRows] at hr
+      simp only [List.mem_cons, List.not_mem_nil, or_false] at hr
+      have e1 : normRow [(1 : ℝ), 3] = [1/4, 3/4] := by norm_num [normRow, sumL]
+      have e2 : normRow [(2 : ℝ), 2] = [1/2, 1/2] := by norm_num [normRow, sumL]
+      rcases hr with rfl | rfl
+      · rw [e1] at hx
+        simp only [List.mem_cons, List.not_mem_nil, or_false] at hx
+        rcases hx with rfl | rfl <;> constructor <;> norm_num
+      · rw [e2] at hx
+        simp only [List.mem_cons, List.not_mem_nil, or_false] at hx
+        rcases hx with rfl | rfl <;> constructor <;> norm_num)
+
+example : (lbCsampleT TR (1/1000) ((lbParams TR (1/1000) .logits [2] [-3, 40]).expand [2])
+    [0, 1/2, 1, 1/3] [1, 0, 0, 1]).map lbThreshold = [1, 0, 0, 1] :=
+  C19_threshold_tensor _ (by norm_num) (by norm_num) _ _ _ (by simp) (by simp)
+
+example : enumCardTensor 3 2 1 = [[1, 0, 0], [0, 1, 0]] := by decide
+
+example : (gCsampleT TR (1/100) ⟨[2], [2], [1/4, 3/4, 1/2, 1/2], [0, 0, 0, 0]⟩
+    [[1/2, 1/3], [1/5, 1/7], [1, 0]] [oneHot 0 2, oneHot 1 2, oneHot 1 2]).map gThreshold
+    = [oneHot 0 2, oneHot 1 2, oneHot 1 2] :=
+  C19_threshold_cat_tensor (1/100) (by norm_num) _ 2 rfl (by decide) (by simp [prodL]) _ _
+    (by simp) (by
+      intro b hb
+      simp only [List.mem_cons, List.not_mem_nil, or_false] at hb
+      rcases hb with rfl | rfl | rfl
+      · exact ⟨0, by norm_num, rfl⟩
+      · exact ⟨1, by norm_num, rfl⟩
+      · exact ⟨1, by norm_num, rfl⟩) (by simp)
 
 end PdtVerif.Estimators
